@@ -5,6 +5,7 @@ import (
 	"fmt"
 	"io"
 	"testing"
+	"time"
 
 	lz4 "github.com/pierrec/lz4/v4"
 	"pgregory.net/rapid"
@@ -131,6 +132,9 @@ func execROp(r *lz4.Reader, src *inst.Source, op rOp, handled *int) opResult {
 		res.Size = r.Size()
 	}
 	if src != nil {
+		// (wait for the pipeline to come to rest: how far a concurrent Reader has read ahead is then a function of its
+		// concurrency setting, not of the scheduler)
+		inst.Quiesce()
 		res.Consumed = src.Consumed()
 	}
 	return res
@@ -186,8 +190,17 @@ func (r *rRun) run(c c17RCase) {
 				class("misuse/reset-mid-stream")
 			}
 			cur = op.Frame % len(frames)
+			old := src
 			src = &inst.Source{Data: frames[cur]}
 			rd.Reset(src)
+			// a new Reader would never touch the source of an earlier stream: once Reset has returned, the old source must not be
+			// read any more (virtual time passes, so whatever is still running in the background gets its chance)
+			callsAtReset := old.Calls
+			time.Sleep(time.Second)
+			if old.Calls != callsAtReset {
+				r.fail = stat.Failf("C17/reader/old-source-read-after-reset-returned", "%s: %d Read call(s) on the previous source after Reset had returned (it had been asked %d times before, %d of its %d bytes consumed then)", where, old.Calls-callsAtReset, callsAtReset, old.Consumed(), len(old.Data))
+				return
+			}
 			r.abandons = false // Reset drains the pipeline of whatever stream was abandoned before
 			state, out, epoch, handled = rsFresh, nil, nil, 0
 			epochConc = conc
@@ -219,7 +232,8 @@ func (r *rRun) run(c c17RCase) {
 				frd.Reset(bytes.NewReader(nil))
 			}
 			same := fres.N == res.N && fres.Err == res.Err && bytes.Equal(fres.Bytes, res.Bytes) && fres.Size == res.Size
-			if conc == 1 && fres.Consumed != res.Consumed {
+			if (conc == 1 || valid) && fres.Consumed != res.Consumed {
+				// (concurrent objects: the read-ahead at rest shows whether the concurrency option is still in force)
 				same = false
 			}
 			if conc > 1 && !valid && op.Op == "read" {
